@@ -1,5 +1,596 @@
-(* FiProofs.v — proofs about the frequent-items model (FiDefs.v). *)
-From Coq Require Import ZArith NArith List Bool Lia.
+(* FiProofs.v — proofs about the abstract layer (L1) of the frequent-items model (FiDefs.v):
+   bracket invariant for histories with arbitrary purge decrements, merge, round trip, result sets,
+   sortedness, and the epsilon bound for the median-of-all-counters purge. *)
+From Coq Require Import ZArith NArith List Bool Lia Permutation Sorting.Sorted.
 From DS Require Import Word Murmur3 RunnerLib FiDefs.
 Import ListNotations.
 Local Open Scope Z_scope.
+
+(* ---------------- insertion sort ---------------- *)
+Section SortFacts.
+  Context {A : Type}.
+  Variable leb : A -> A -> bool.
+
+  Lemma ins_perm x l : Permutation (x :: l) (ins leb x l).
+  Proof.
+    induction l as [|y t IH]; simpl; auto.
+    destruct (leb x y); auto.
+    eapply perm_trans; [apply perm_swap|]. now constructor.
+  Qed.
+
+  Lemma isort_perm l : Permutation l (isort leb l).
+  Proof.
+    induction l as [|x t IH]; simpl; auto.
+    eapply perm_trans; [|apply ins_perm]. now constructor.
+  Qed.
+
+  Hypothesis leb_total : forall a b, leb a b = true \/ leb b a = true.
+  Hypothesis leb_trans : forall a b c, leb a b = true -> leb b c = true -> leb a c = true.
+
+  Lemma ins_sorted x l :
+    StronglySorted (fun a b => leb a b = true) l -> StronglySorted (fun a b => leb a b = true) (ins leb x l).
+  Proof.
+    induction l as [|y t IH]; simpl; intros H.
+    - constructor; constructor.
+    - inversion H as [|? ? Ht Hy]; subst.
+      destruct (leb x y) eqn:E.
+      + constructor; auto. constructor; auto.
+        rewrite Forall_forall in *. intros z Hz. eapply leb_trans; eauto.
+      + constructor; auto.
+        assert (Hyx : leb y x = true) by (destruct (leb_total x y); congruence).
+        rewrite Forall_forall in *. intros z Hz.
+        apply (Permutation_in _ (Permutation_sym (ins_perm x t))) in Hz.
+        destruct Hz as [<-|Hz]; auto.
+  Qed.
+
+  Lemma isort_sorted l : StronglySorted (fun a b => leb a b = true) (isort leb l).
+  Proof. induction l; simpl; [constructor|now apply ins_sorted]. Qed.
+End SortFacts.
+
+Lemma zsort_perm l : Permutation l (zsort l).
+Proof. apply isort_perm. Qed.
+
+Lemma zsort_sorted l : StronglySorted Z.le (zsort l).
+Proof.
+  assert (H : StronglySorted (fun a b => Z.leb a b = true) (zsort l)).
+  { apply isort_sorted; intros; lia. }
+  induction H; constructor; auto.
+  rewrite Forall_forall in *. intros y Hy. apply Z.leb_le; auto.
+Qed.
+
+Lemma ssorted_nth (l : list Z) : StronglySorted Z.le l ->
+  forall i j, (i <= j < length l)%nat -> nth i l 0 <= nth j l 0.
+Proof.
+  induction 1 as [|a l Hs IH Hf]; intros i j Hij; simpl in *; [lia|].
+  destruct i, j; try lia.
+  - rewrite Forall_forall in Hf. apply Hf, nth_In. lia.
+  - apply IH. lia.
+Qed.
+
+Lemma nth_skipn_own {A} (l : list A) i j d : nth j (skipn i l) d = nth (i + j) l d.
+Proof.
+  revert l. induction i as [|i IH]; intros l; simpl; auto.
+  destruct l; simpl; auto. now destruct j.
+Qed.
+
+Definition count_ge (d : Z) (l : list Z) : Z := Z.of_nat (length (filter (fun v => d <=? v) l)).
+
+Lemma count_ge_perm d l l' : Permutation l l' -> count_ge d l = count_ge d l'.
+Proof.
+  unfold count_ge. induction 1; simpl; auto; try lia.
+  - destruct (d <=? x); simpl; lia.
+  - destruct (d <=? x), (d <=? y); simpl; lia.
+Qed.
+
+Lemma count_ge_app d a b : count_ge d (a ++ b) = count_ge d a + count_ge d b.
+Proof. unfold count_ge. rewrite filter_app, app_length. lia. Qed.
+
+Lemma count_ge_nonneg d l : 0 <= count_ge d l.
+Proof. unfold count_ge. lia. Qed.
+
+Lemma count_ge_all d l : Forall (fun v => d <= v) l -> count_ge d l = Z.of_nat (length l).
+Proof.
+  unfold count_ge. induction 1; simpl; auto.
+  destruct (Z.leb_spec d x); simpl; lia.
+Qed.
+
+(* at least ceil(n/2) elements are >= the median *)
+Lemma median_count (l : list Z) : l <> [] ->
+  Z.of_nat (length l - length l / 2) <= count_ge (median l) l.
+Proof.
+  intros Hne. unfold median.
+  set (n := length l). set (s := zsort l).
+  assert (Hlen : length s = n) by (symmetry; apply Permutation_length, zsort_perm).
+  rewrite (count_ge_perm _ _ _ (zsort_perm l)). fold s.
+  rewrite <- (firstn_skipn (n / 2) s) at 2. rewrite count_ge_app.
+  assert (Hn : (0 < n)%nat) by (destruct l; simpl in *; [congruence|lia]).
+  assert (Hh : (n / 2 < n)%nat) by (apply Nat.div_lt; lia).
+  rewrite (count_ge_all _ (skipn (n / 2) s)).
+  - rewrite skipn_length, Hlen. pose proof (count_ge_nonneg (nth (n / 2) s 0) (firstn (n / 2) s)). lia.
+  - rewrite Forall_forall. intros v Hv.
+    destruct (In_nth _ _ 0 Hv) as [j [Hj <-]]. rewrite skipn_length in Hj.
+    rewrite nth_skipn_own. apply ssorted_nth; [apply zsort_sorted|]. lia.
+Qed.
+
+Lemma median_in (l : list Z) : l <> [] -> In (median l) l.
+Proof.
+  intros Hne. unfold median.
+  apply (Permutation_in _ (Permutation_sym (zsort_perm l))).
+  apply nth_In. rewrite <- (Permutation_length (zsort_perm l)).
+  apply Nat.div_lt; [destruct l; simpl in *; [congruence|lia]|lia].
+Qed.
+
+(* the published epsilon: 3.5 / 2^lg.  With cap = 3/4 * 2^lg and h = ceil((cap+1)/2):  offset * h <= total
+   implies  offset <= 3.5 / 2^lg * total,  i.e.  2 * 2^lg * offset <= 7 * total *)
+Lemma eps_arith (lg off tot : Z) : 3 <= lg -> 0 <= off ->
+  off * ((2 ^ lg * 3 / 4 + 2) / 2) <= tot -> 2 * 2 ^ lg * off <= 7 * tot.
+Proof.
+  intros Hlg Hoff H.
+  replace lg with (3 + (lg - 3)) in * by lia.
+  rewrite Z.pow_add_r in * by lia. change (2 ^ 3) with 8 in *.
+  set (p := 2 ^ (lg - 3)) in *.
+  assert (Hp : 0 < p) by (apply Z.pow_pos_nonneg; lia).
+  replace ((8 * p * 3 / 4 + 2) / 2) with (3 * p + 1) in H.
+  - nia.
+  - replace (8 * p * 3) with ((6 * p) * 4) by lia. rewrite Z.div_mul by lia.
+    replace (6 * p + 2) with ((3 * p + 1) * 2) by lia. now rewrite Z.div_mul by lia.
+Qed.
+
+(* =====================================  L1  ===================================== *)
+Section L1Proofs.
+  Variable Item : Type.
+  Variable eqb : Item -> Item -> bool.
+  Hypothesis eqb_spec : forall a b, eqb a b = true <-> a = b.
+
+  Notation amap := (amap Item).
+  Notation ask := (ask Item).
+  Notation a_get := (a_get Item eqb).
+  Notation a_add := (a_add Item eqb).
+  Notation a_purge := (a_purge Item).
+  Notation a_step := (a_step Item eqb).
+  Notation a_run := (a_run Item eqb).
+  Notation h_weight := (h_weight Item eqb).
+  Notation keys := (map (@fst Item Z)).
+
+  Lemma eqb_refl x : eqb x x = true.
+  Proof. now apply eqb_spec. Qed.
+  Lemma eqb_false a b : a <> b -> eqb a b = false.
+  Proof. intros H. destruct (eqb a b) eqn:E; auto. apply eqb_spec in E. contradiction. Qed.
+
+  Lemma a_get_notin (m : amap) x : ~ In x (keys m) -> a_get m x = 0.
+  Proof.
+    induction m as [|[k v] t IH]; simpl; intros H; auto.
+    rewrite eqb_false by (intros ->; apply H; now left). apply IH. tauto.
+  Qed.
+
+  Lemma a_get_in (m : amap) x v : NoDup (keys m) -> In (x, v) m -> a_get m x = v.
+  Proof.
+    induction m as [|[k u] t IH]; simpl; intros Hnd Hin; [contradiction|].
+    inversion Hnd as [|? ? Hk Ht]; subst.
+    destruct Hin as [E|Hin].
+    - inversion E; subst. now rewrite eqb_refl.
+    - rewrite eqb_false; auto. intros ->. apply Hk. now apply (in_map fst) in Hin.
+  Qed.
+
+  Lemma a_get_nonzero_in (m : amap) x : a_get m x <> 0 -> In (x, a_get m x) m.
+  Proof.
+    induction m as [|[k v] t IH]; simpl; intros H; [congruence|].
+    destruct (eqb k x) eqn:E.
+    - apply eqb_spec in E. subst. now left.
+    - right. auto.
+  Qed.
+
+  Lemma a_get_add (m : amap) x w y :
+    a_get (a_add m x w) y = a_get m y + (if eqb x y then w else 0).
+  Proof.
+    induction m as [|[k v] t IH]; simpl.
+    - destruct (eqb x y); lia.
+    - destruct (eqb k x) eqn:E; simpl.
+      + apply eqb_spec in E. subst k. destruct (eqb x y); lia.
+      + destruct (eqb k y) eqn:E2; auto.
+        apply eqb_spec in E2. subst k. destruct (eqb x y) eqn:E3; [|lia].
+        apply eqb_spec in E3. subst. rewrite eqb_refl in E. discriminate.
+  Qed.
+
+  Lemma keys_add (m : amap) x w :
+    keys (a_add m x w) = keys m \/ (~ In x (keys m) /\ keys (a_add m x w) = keys m ++ [x]).
+  Proof.
+    induction m as [|[k v] t IH]; simpl.
+    - right. split; auto.
+    - destruct (eqb k x) eqn:E; simpl; [now left|].
+      destruct IH as [->|[Hn ->]]; [now left|].
+      right. split; auto. intros [->|H]; auto. now rewrite eqb_refl in E.
+  Qed.
+
+  Lemma nodup_add (m : amap) x w : NoDup (keys m) -> NoDup (keys (a_add m x w)).
+  Proof.
+    intros H. destruct (keys_add m x w) as [->|[Hn ->]]; auto.
+    apply NoDup_rev in H. rewrite <- (rev_involutive (keys m ++ [x])).
+    apply NoDup_rev. rewrite rev_app_distr. simpl. constructor; auto. now rewrite <- in_rev.
+  Qed.
+
+  Lemma keys_purge_incl (m : amap) d x : In x (keys (a_purge m d)) -> In x (keys m).
+  Proof.
+    unfold FiDefs.a_purge. induction m as [|[k v] t IH]; simpl; auto.
+    destruct (0 <? v - d); simpl; tauto.
+  Qed.
+
+  Lemma nodup_purge (m : amap) d : NoDup (keys m) -> NoDup (keys (a_purge m d)).
+  Proof.
+    induction m as [|[k v] t IH]; simpl; intros H; [constructor|].
+    inversion H; subst. unfold FiDefs.a_purge. simpl.
+    destruct (0 <? v - d); simpl; [|now apply IH].
+    constructor; [|now apply IH]. intros Hin. now apply keys_purge_incl in Hin.
+  Qed.
+
+  Lemma a_get_purge (m : amap) d y : NoDup (keys m) -> 0 <= d ->
+    a_get (a_purge m d) y = Z.max 0 (a_get m y - d).
+  Proof.
+    induction m as [|[k v] t IH]; simpl; intros Hnd Hd; [lia|].
+    inversion Hnd as [|? ? Hk Ht]; subst.
+    unfold FiDefs.a_purge. simpl.
+    destruct (eqb k y) eqn:E.
+    - apply eqb_spec in E. subst k.
+      destruct (Z.ltb_spec 0 (v - d)); simpl.
+      + rewrite eqb_refl. lia.
+      + rewrite a_get_notin; [lia|]. intros Hin. now apply keys_purge_incl in Hin.
+    - destruct (0 <? v - d); simpl; [rewrite E|]; now apply IH.
+  Qed.
+
+  (* --- the bracket invariant: t is the true weight function --- *)
+  Definition Inv (s : ask) (t : Item -> Z) : Prop :=
+    NoDup (keys (a_ents _ s)) /\ 0 <= a_off _ s /\
+    forall x, 0 <= a_get (a_ents _ s) x /\ a_get (a_ents _ s) x <= t x <= a_get (a_ents _ s) x + a_off _ s.
+
+  Lemma Inv_ext s t t' : (forall x, t x = t' x) -> Inv s t -> Inv s t'.
+  Proof. intros E (H1 & H2 & H3). repeat split; auto; try apply H3; rewrite <- E; apply H3. Qed.
+
+  Definition op_weight (o : aop Item) (y : Item) : Z :=
+    match o with AUpd _ x w => if eqb x y then w else 0 | APurge _ _ => 0 end.
+
+  Lemma Inv_empty : Inv (a_empty _) (fun _ => 0).
+  Proof. repeat split; simpl; try lia. constructor. Qed.
+
+  Lemma Inv_step s t o : Inv s t -> aop_ok _ o -> Inv (a_step s o) (fun y => t y + op_weight o y).
+  Proof.
+    intros (Hnd & Hoff & Hb) Hok. destruct o as [x w|d]; unfold Inv; simpl in *.
+    - split; [now apply nodup_add|]. split; auto. intros y. rewrite a_get_add.
+      specialize (Hb y). destruct (eqb x y); lia.
+    - split; [now apply nodup_purge|]. split; [lia|]. intros y. rewrite a_get_purge by auto.
+      specialize (Hb y). lia.
+  Qed.
+
+  Lemma h_weight_cons o h y : h_weight (o :: h) y = op_weight o y + h_weight h y.
+  Proof. destruct o; simpl; auto. destruct (eqb x y); lia. Qed.
+
+  Lemma Inv_run h : forall s t, Inv s t -> Forall (aop_ok _) h ->
+    Inv (a_run s h) (fun y => t y + h_weight h y).
+  Proof.
+    induction h as [|o h IH]; intros s t Hi Hok.
+    - simpl. eapply Inv_ext; [|exact Hi]. intros; simpl; lia.
+    - inversion Hok; subst. change (a_run s (o :: h)) with (a_run (a_step s o) h).
+      eapply Inv_ext; [|apply IH; [apply Inv_step; eauto|auto]].
+      intros x. cbv beta. rewrite h_weight_cons. lia.
+  Qed.
+
+  Lemma tot_run h : forall s, a_tot _ (a_run s h) = a_tot _ s + h_total _ h.
+  Proof.
+    induction h as [|o h IH]; intros s; simpl; [lia|].
+    rewrite IH. destruct o; simpl; lia.
+  Qed.
+
+  (* getters from the invariant *)
+  Lemma Inv_getters s t x : Inv s t ->
+    a_lb _ eqb s x <= t x <= a_ub _ eqb s x /\
+    a_lb _ eqb s x <= a_est _ eqb s x <= a_ub _ eqb s x /\
+    a_ub _ eqb s x - a_lb _ eqb s x = a_off _ s.
+  Proof.
+    intros (_ & Hoff & Hb). specialize (Hb x). unfold a_lb, a_ub, a_est.
+    destruct (Z.ltb_spec 0 (a_get (a_ents _ s) x)); lia.
+  Qed.
+
+  Theorem fi_bracket h x : Forall (aop_ok _) h ->
+    let s := a_run (a_empty _) h in
+    a_lb _ eqb s x <= h_weight h x <= a_ub _ eqb s x /\
+    a_lb _ eqb s x <= a_est _ eqb s x <= a_ub _ eqb s x /\
+    a_ub _ eqb s x - a_lb _ eqb s x = a_off _ s.
+  Proof.
+    intros Hok s.
+    assert (Hi : Inv s (fun y => 0 + h_weight h y)) by (apply Inv_run; [apply Inv_empty|auto]).
+    apply (Inv_getters _ _ x) in Hi. simpl in Hi. exact Hi.
+  Qed.
+
+  Theorem fi_total_exact h : a_tot _ (a_run (a_empty _) h) = h_total _ h.
+  Proof. rewrite tot_run. reflexivity. Qed.
+
+  (* --- merge --- *)
+  Definition replays (h : list (aop Item)) (b : ask) : Prop :=
+    Forall (aop_ok _) h /\ forall y, h_weight h y = a_get (a_ents _ b) y.
+
+  Lemma Inv_merge a ta b tb h : Inv a ta -> Inv b tb -> replays h b -> a_ents _ b <> [] ->
+    Inv (a_merge _ eqb a b h) (fun y => ta y + tb y).
+  Proof.
+    intros Ha Hb [Hok Hw] Hne. unfold a_merge.
+    destruct (a_ents _ b) eqn:Eb; [congruence|]. rewrite <- Eb in *. clear Eb.
+    destruct (Inv_run h a ta Ha Hok) as (Hnd & Hoff & Hbr).
+    destruct Hb as (_ & Hoffb & Hbb).
+    split; [exact Hnd|]. split; [simpl; lia|]. intros y. simpl.
+    specialize (Hbr y). specialize (Hbb y). rewrite Hw in Hbr. lia.
+  Qed.
+
+  Lemma tot_merge a b h : a_ents _ b <> [] -> a_tot _ (a_merge _ eqb a b h) = a_tot _ a + a_tot _ b.
+  Proof. intros Hne. unfold a_merge. destruct (a_ents _ b); [congruence|reflexivity]. Qed.
+
+  (* --- round trip --- *)
+  Lemma nopurge_run h : h_nopurge _ h -> forall s,
+    a_off _ (a_run s h) = a_off _ s /\ forall y, a_get (a_ents _ (a_run s h)) y = a_get (a_ents _ s) y + h_weight h y.
+  Proof.
+    induction 1 as [|o h Ho Hh IH]; intros s; simpl; [split; intros; lia|].
+    destruct o as [x w|d]; [|contradiction].
+    destruct (IH (a_step s (AUpd _ x w))) as [E1 E2]. split; [exact E1|].
+    intros y. rewrite E2. simpl. rewrite a_get_add. destruct (eqb x y); lia.
+  Qed.
+
+  Lemma nodup_run h : forall s, NoDup (keys (a_ents _ s)) -> NoDup (keys (a_ents _ (a_run s h))).
+  Proof.
+    induction h as [|o h IH]; intros s H; simpl; auto.
+    apply IH. destruct o; simpl; [now apply nodup_add|now apply nodup_purge].
+  Qed.
+
+  Lemma Inv_roundtrip s t h : Inv s t -> h_nopurge _ h -> (forall y, h_weight h y = a_get (a_ents _ s) y) ->
+    a_ents _ s <> [] -> Inv (a_roundtrip _ eqb s h) t.
+  Proof.
+    intros (Hnd & Hoff & Hb) Hnp Hw Hne. unfold a_roundtrip.
+    destruct (a_ents _ s) eqn:Es; [congruence|]. rewrite <- Es in *. clear Es.
+    destruct (nopurge_run h Hnp (a_empty _)) as [_ E].
+    split; [apply nodup_run; constructor|]. split; [exact Hoff|].
+    intros y. simpl. rewrite E, Hw. simpl. apply Hb.
+  Qed.
+
+  (* --- every sketch reachable by updates, purges with any decrement, merges (replay in any order with any purges,
+         operand with at least one counter) and round trips brackets the true weights and has the exact total --- *)
+  Inductive Reach : ask -> (Item -> Z) -> Z -> Prop :=
+  | R_new : Reach (a_empty _) (fun _ => 0) 0
+  | R_upd s t T x w : Reach s t T -> 0 < w ->
+      Reach (a_step s (AUpd _ x w)) (fun y => t y + (if eqb x y then w else 0)) (T + w)
+  | R_purge s t T d : Reach s t T -> 0 <= d -> Reach (a_step s (APurge _ d)) t T
+  | R_merge a ta Ta b tb Tb h : Reach a ta Ta -> Reach b tb Tb -> replays h b -> a_ents _ b <> [] ->
+      Reach (a_merge _ eqb a b h) (fun y => ta y + tb y) (Ta + Tb)
+  | R_roundtrip s t T h : Reach s t T -> h_nopurge _ h -> (forall y, h_weight h y = a_get (a_ents _ s) y) ->
+      a_ents _ s <> [] -> Reach (a_roundtrip _ eqb s h) t T.
+
+  Lemma Reach_Inv s t T : Reach s t T -> Inv s t /\ a_tot _ s = T.
+  Proof.
+    induction 1 as [|s t T x w Hr [IH1 IH2] Hw|s t T d Hr [IH1 IH2] Hd
+                    |a ta Ta b tb Tb h Ha [IHa1 IHa2] Hb [IHb1 IHb2] Hrep Hne
+                    |s t T h Hr [IH1 IH2] Hnp Hw Hne].
+    - split; [apply Inv_empty|reflexivity].
+    - split; [|simpl; lia]. apply (Inv_step s t (AUpd _ x w)); simpl; auto.
+    - split; [|simpl; lia].
+      eapply Inv_ext; [|apply (Inv_step s t (APurge _ d)); simpl; auto]. intros; simpl; lia.
+    - split; [now apply Inv_merge|]. rewrite tot_merge; auto. lia.
+    - split; [now apply Inv_roundtrip|]. unfold a_roundtrip. destruct (a_ents _ s); [congruence|]. simpl. exact IH2.
+  Qed.
+
+  Theorem fi_reach_bracket s t T x : Reach s t T ->
+    a_lb _ eqb s x <= t x <= a_ub _ eqb s x /\
+    a_lb _ eqb s x <= a_est _ eqb s x <= a_ub _ eqb s x /\
+    a_ub _ eqb s x - a_lb _ eqb s x = a_off _ s /\
+    a_tot _ s = T.
+  Proof.
+    intros H. destruct (Reach_Inv _ _ _ H) as [Hi Ht].
+    destruct (Inv_getters _ _ x Hi) as (A & B & C). auto.
+  Qed.
+
+  (* --- result sets --- *)
+  Lemma rows_in nfn (s : ask) thr (kv : Item * Z) :
+    In kv (a_rows _ nfn s thr) <->
+    In kv (a_ents _ s) /\ (if nfn then thr <? snd kv + a_off _ s else thr <? snd kv) = true.
+  Proof.
+    unfold a_rows. split; intros H.
+    - apply (Permutation_in _ (Permutation_sym (isort_perm _ _))) in H. apply filter_In in H. exact H.
+    - eapply Permutation_in; [apply isort_perm|]. apply filter_In. exact H.
+  Qed.
+
+  Theorem no_false_negatives s t thr x : Inv s t -> a_off _ s <= thr -> thr < t x ->
+    In (x, a_lb _ eqb s x) (a_rows _ true s thr).
+  Proof.
+    intros (Hnd & Hoff & Hb) Hthr Hx. specialize (Hb x). unfold a_lb.
+    apply rows_in. split.
+    - apply a_get_nonzero_in. lia.
+    - simpl. apply Z.ltb_lt. lia.
+  Qed.
+
+  Theorem no_false_positives s t thr x v : Inv s t -> In (x, v) (a_rows _ false s thr) ->
+    thr < t x /\ v = a_lb _ eqb s x.
+  Proof.
+    intros (Hnd & Hoff & Hb) Hin. apply rows_in in Hin. destruct Hin as [Hin Hf].
+    simpl in Hf. apply Z.ltb_lt in Hf. unfold a_lb.
+    rewrite (a_get_in _ _ _ Hnd Hin). specialize (Hb x). rewrite (a_get_in _ _ _ Hnd Hin) in Hb. split; [lia|auto].
+  Qed.
+
+  (* rows of either kind report the sketch's own bounds *)
+  Lemma rows_report_bounds nfn s t thr x v : Inv s t -> In (x, v) (a_rows _ nfn s thr) -> v = a_lb _ eqb s x.
+  Proof.
+    intros (Hnd & _) Hin. apply rows_in in Hin. destruct Hin as [Hin _]. unfold a_lb.
+    now rewrite (a_get_in _ _ _ Hnd Hin).
+  Qed.
+
+  Theorem rows_sorted_desc nfn s thr :
+    StronglySorted (fun p q : Item * Z => snd q + a_off _ s <= snd p + a_off _ s) (a_rows _ nfn s thr).
+  Proof.
+    unfold a_rows.
+    match goal with |- StronglySorted _ (isort ?f ?l) =>
+      assert (H : StronglySorted (fun a b => f a b = true) (isort f l)) end.
+    { apply isort_sorted; intros; lia. }
+    induction H; constructor; auto.
+    rewrite Forall_forall in *. intros y Hy. specialize (H0 y Hy). cbv beta in H0. lia.
+  Qed.
+
+  (* --- epsilon bound: purge decrement = median of all counters, purge when more than cap counters --- *)
+  Notation a_sum := (a_sum Item).
+
+  Definition Pos (m : amap) : Prop := Forall (fun kv => 0 < snd kv) m.
+
+  Lemma a_sum_add (m : amap) x w : a_sum (a_add m x w) = a_sum m + w.
+  Proof.
+    induction m as [|[k v] t IH]; simpl; [lia|].
+    destruct (eqb k x); simpl; lia.
+  Qed.
+
+  Lemma pos_add (m : amap) x w : Pos m -> 0 < w -> Pos (a_add m x w).
+  Proof.
+    induction 1 as [|[k v] t Hk Ht IH]; simpl; intros Hw.
+    - constructor; auto.
+    - unfold Pos in *. destruct (eqb k x); constructor; simpl in *; auto; try lia.
+  Qed.
+
+  Lemma pos_purge (m : amap) d : Pos (a_purge m d).
+  Proof.
+    unfold Pos, FiDefs.a_purge. rewrite Forall_forall. intros kv H.
+    apply filter_In in H. destruct H as [_ H]. now apply Z.ltb_lt.
+  Qed.
+
+  Lemma pos_sum_nonneg (m : amap) : Pos m -> 0 <= a_sum m.
+  Proof. induction 1; simpl; lia. Qed.
+
+  Lemma sum_purge (m : amap) d : Pos m -> 0 <= d ->
+    a_sum (a_purge m d) + d * count_ge d (map snd m) <= a_sum m.
+  Proof.
+    unfold count_ge, FiDefs.a_purge.
+    induction 1 as [|[k v] t Hk Ht IH]; intros Hd; simpl in *; [lia|].
+    specialize (IH Hd).
+    destruct (Z.ltb_spec 0 (v - d)); destruct (Z.leb_spec d v); simpl; lia.
+  Qed.
+
+  Lemma length_add_pos (m : amap) x w : a_add m x w <> [].
+  Proof. destruct m as [|[k v] t]; simpl; [congruence|]. destruct (eqb k x); congruence. Qed.
+
+  (* E h s: offset * h <= total - sum of counters *)
+  Definition EInv (h : Z) (s : ask) : Prop :=
+    0 <= a_off _ s /\ Pos (a_ents _ s) /\ a_off _ s * h <= a_tot _ s - a_sum (a_ents _ s).
+
+  Lemma EInv_empty h : EInv h (a_empty _).
+  Proof. repeat split; simpl; try lia. constructor. Qed.
+
+  Lemma EInv_mono h h' s : 0 <= h' <= h -> EInv h s -> EInv h' s.
+  Proof. intros Hh (A & B & C). repeat split; auto. nia. Qed.
+
+  Lemma half_mono (n m : nat) : (n <= m)%nat -> (n - n / 2 <= m - m / 2)%nat.
+  Proof.
+    intros H.
+    pose proof (Nat.div_mod n 2 ltac:(lia)). pose proof (Nat.div_mod m 2 ltac:(lia)).
+    pose proof (Nat.mod_upper_bound n 2 ltac:(lia)). pose proof (Nat.mod_upper_bound m 2 ltac:(lia)). lia.
+  Qed.
+
+  Lemma EInv_update cap h s x w : 0 <= cap -> 0 <= h <= (cap + 2) / 2 -> 0 < w -> EInv h s ->
+    EInv h (a_update_det _ eqb cap s x w).
+  Proof.
+    intros Hcap Hh Hw (Hoff & Hpos & Hinv). unfold a_update_det.
+    set (e := a_add (a_ents _ s) x w).
+    assert (Hpe : Pos e) by now apply pos_add.
+    assert (Hse : a_sum e = a_sum (a_ents _ s) + w) by apply a_sum_add.
+    destruct (Z.ltb_spec cap (Z.of_nat (length e))) as [Hlt|Hge].
+    - set (d := median (map snd e)).
+      assert (Hne : map snd e <> []) by (intros E; apply map_eq_nil in E; now apply (length_add_pos (a_ents _ s) x w)).
+      assert (Hd : 0 < d).
+      { pose proof (median_in _ Hne) as Hin. apply in_map_iff in Hin. destruct Hin as [kv [E Hin]].
+        unfold Pos in Hpe. rewrite Forall_forall in Hpe. specialize (Hpe kv Hin). fold d in E. lia. }
+      pose proof (median_count _ Hne) as Hc. fold d in Hc. rewrite map_length in Hc.
+      pose proof (sum_purge e d Hpe ltac:(lia)) as Hs.
+      assert (Hhc : h <= count_ge d (map snd e)).
+      { eapply Z.le_trans; [|exact Hc].
+        assert (Hn : (Z.to_nat (cap + 1) <= length e)%nat) by lia.
+        apply half_mono in Hn. eapply Z.le_trans; [|apply inj_le; exact Hn].
+        rewrite Nat2Z.inj_sub by (apply Nat.lt_le_incl, Nat.div_lt; lia).
+        rewrite Nat2Z.inj_div. rewrite Z2Nat.id by lia. change (Z.of_nat 2) with 2.
+        Ltac Zify.zify_post_hook ::= Z.div_mod_to_equations. lia. }
+      repeat split; simpl; [lia|apply pos_purge|]. nia.
+    - repeat split; simpl; auto. lia.
+  Qed.
+
+  Lemma EInv_run cap h l : 0 <= cap -> 0 <= h <= (cap + 2) / 2 -> Forall (fun xw => 0 < snd xw) l ->
+    forall s, EInv h s ->
+    EInv h (a_run_det _ eqb cap s l) /\ a_tot _ (a_run_det _ eqb cap s l) = a_tot _ s + a_sum l.
+  Proof.
+    intros Hcap Hh. induction 1 as [|[x w] l Hw Hl IH]; intros s Hs; simpl; [split; [auto|lia]|].
+    destruct (IH (a_update_det _ eqb cap s x w)) as [A B]; [now apply EInv_update|].
+    split; [exact A|]. rewrite B. unfold a_update_det.
+    destruct (cap <? _); simpl; lia.
+  Qed.
+
+  Lemma EInv_merge cap h a b order : 0 <= cap -> 0 <= h <= (cap + 2) / 2 ->
+    EInv h a -> EInv h b -> Permutation order (a_ents _ b) ->
+    EInv h (a_merge_det _ eqb cap a b order).
+  Proof.
+    intros Hcap Hh Ha Hb Hperm. unfold a_merge_det.
+    destruct (a_ents _ b) eqn:Eb; [exact Ha|]. rewrite <- Eb in *. clear Eb.
+    destruct Hb as (Hoffb & Hposb & Hinvb).
+    assert (Hpo : Forall (fun xw : Item * Z => 0 < snd xw) order).
+    { unfold Pos in Hposb. rewrite Forall_forall in *. intros kv Hin. apply Hposb.
+      eapply Permutation_in; eauto. }
+    assert (Hso : a_sum order = a_sum (a_ents _ b)).
+    { clear -Hperm. induction Hperm; simpl; lia. }
+    destruct (EInv_run cap h order Hcap Hh Hpo a Ha) as [(A1 & A2 & A3) B].
+    repeat split; simpl; [lia|exact A2|]. rewrite B, Hso in A3. nia.
+  Qed.
+
+  Lemma EInv_bound h s : 0 <= h -> EInv h s -> a_off _ s * h <= a_tot _ s.
+  Proof. intros Hh (A & B & C). pose proof (pos_sum_nonneg _ B). lia. Qed.
+
+  (* the deterministic update is a history: an update followed by at most one purge with a non-negative decrement *)
+  Lemma det_is_history cap s x w : Pos (a_ents _ s) -> 0 < w ->
+    exists h, Forall (aop_ok _) h /\ a_update_det _ eqb cap s x w = a_run s h /\
+              (forall y, h_weight h y = if eqb x y then w else 0) /\ h_total _ h = w.
+  Proof.
+    intros Hpos Hw. unfold a_update_det.
+    set (e := a_add (a_ents _ s) x w).
+    destruct (cap <? Z.of_nat (length e)) eqn:E.
+    - exists [AUpd _ x w; APurge _ (median (map snd e))]. split; [|split; [reflexivity|split]].
+      + constructor; [exact Hw|]. constructor; [|constructor]. simpl.
+        assert (Hne : map snd e <> []) by (intros E'; apply map_eq_nil in E'; now apply (length_add_pos (a_ents _ s) x w)).
+        pose proof (median_in _ Hne) as Hin. apply in_map_iff in Hin. destruct Hin as [kv [E' Hin]].
+        pose proof (pos_add _ x w Hpos Hw) as Hpe. unfold Pos in Hpe. rewrite Forall_forall in Hpe.
+        specialize (Hpe kv Hin). fold e in Hpe. lia.
+      + intros y. simpl. destruct (eqb x y); lia.
+      + simpl. lia.
+    - exists [AUpd _ x w]. split; [|split; [reflexivity|split]].
+      + constructor; [exact Hw|constructor].
+      + intros y. simpl. destruct (eqb x y); lia.
+      + simpl. lia.
+  Qed.
+
+  (* every sketch built by deterministic updates, merges of sketches with at least as large a capacity (replay in any
+     order) and re-layouts (permutation of the counters: copy, serialize/deserialize) *)
+  Inductive DReach : Z -> ask -> Prop :=
+  | D_new cap : DReach cap (a_empty _)
+  | D_upd cap s x w : DReach cap s -> 0 < w -> DReach cap (a_update_det _ eqb cap s x w)
+  | D_merge cap a cap' b order : DReach cap a -> DReach cap' b -> cap <= cap' ->
+      Permutation order (a_ents _ b) -> DReach cap (a_merge_det _ eqb cap a b order)
+  | D_perm cap s e : DReach cap s -> Permutation e (a_ents _ s) ->
+      DReach cap {| a_ents := e; a_off := a_off _ s; a_tot := a_tot _ s |}.
+
+  Lemma DReach_EInv cap s : DReach cap s -> 0 <= cap -> EInv ((cap + 2) / 2) s.
+  Proof.
+    induction 1 as [cap|cap s x w Hs IH Hw|cap a cap' b order Ha IHa Hb IHb Hle Hperm|cap s e Hs IH Hperm]; intros Hcap.
+    - apply EInv_empty.
+    - apply EInv_update; auto. split; [apply Z.div_pos; lia|lia].
+    - assert (H0 : 0 <= (cap + 2) / 2) by (apply Z.div_pos; lia).
+      apply EInv_merge; auto; [lia|].
+      eapply EInv_mono; [|apply IHb; lia]. split; auto. apply Z.div_le_mono; lia.
+    - destruct (IH Hcap) as (A & B & C). repeat split; simpl; auto.
+      + unfold Pos in *. rewrite Forall_forall in *. intros kv Hin. apply B. eapply Permutation_in; eauto.
+      + assert (E : a_sum e = a_sum (a_ents _ s)) by (clear -Hperm; induction Hperm; simpl; lia).
+        rewrite E. exact C.
+  Qed.
+
+  Theorem eps_bound lg s : 3 <= lg -> DReach (2 ^ lg * 3 / 4) s -> 2 * 2 ^ lg * a_off _ s <= 7 * a_tot _ s.
+  Proof.
+    intros Hlg Hr.
+    assert (Hcap : 0 <= 2 ^ lg * 3 / 4) by (apply Z.div_pos; [|lia]; pose proof (Z.pow_pos_nonneg 2 lg); lia).
+    pose proof (DReach_EInv _ _ Hr Hcap) as HE.
+    apply eps_arith; auto; [destruct HE; auto|].
+    apply EInv_bound; auto. apply Z.div_pos; lia.
+  Qed.
+End L1Proofs.
+
